@@ -116,7 +116,9 @@ def run_hist(unit, res, only=None):
     W = order.ordering_cone.W
     vals = [np.array([0.0, 0.0]), np.array([1.0, -0.5]), np.array([-0.5, 1.5])]
     Y = np.zeros((K, 2))
-    name = seams.inject_dataset(seams.default_inputs(K, 1), Y)
+    # one configuration keeps raw INTEGER objectives in the dataset (a custom Dataset may do so): the float
+    # observations must still be averaged exactly
+    name = seams.inject_dataset(seams.default_inputs(K, 1), Y, out_dtype=(int if (K == 2 and depth == 3 and spec == ("theta", 60)) else float))
     base = NaiveElimination(0.1, 0.1, name, order, 0.01, L=depth)
     step_choices = list(itertools.product(range(3), repeat=K))
     n = 0
